@@ -288,6 +288,9 @@ theorem take_eq (key : α → κ) (P : Nat) (m : ASet α) (hle : m.len ≤ m.val
         | none => rfl
         | some y =>
           simp only [Option.bind_some]
+          -- (the guard may be written on the tail length: `len - index - 1 > 0`)
+          have e3 : (0 < m.len - i - 1) ↔ (i < m.len - 1) := by omega
+          try simp only [e3]
           by_cases hlt : i < m.len - 1
           · simp only [hlt, if_true]
             -- (the source may write the source index `1 + index` and the count `len - 1 - index`)
